@@ -49,6 +49,9 @@ def instances(tier):
     for sym_side in ("target", "source"):
         for v in range(4):
             out.append(("pwa", {"sym": sym_side, "tris": 2, "symv": [v]}))
+        # the target handed over as a TriMesh that carries a triangulation of its own (the other diagonal)
+        for v in ((3,) if tier == "quick" else range(4)):
+            out.append(("pwa", {"sym": sym_side, "tris": 2, "symv": [v], "target_mesh": True}))
         if tier != "quick":
             for v in range(3):
                 out.append(("pwa", {"sym": sym_side, "tris": 1, "symv": [v, (v + 1) % 3]}))
@@ -156,7 +159,11 @@ def pwa(F, ob, cfg):
             a2 = _area2(p, tri)
             # same orientation as the base triangulation and non-degenerate
             F.assume(a2 >= 0.1)
-    pw = PiecewiseAffine(TriMesh(src, trilist, copy=False), PointCloud(tgt, copy=False))
+    if cfg.get("target_mesh"):
+        target = TriMesh(tgt, np.array([[0, 1, 3], [0, 3, 2]]), copy=False)
+    else:
+        target = PointCloud(tgt, copy=False)
+    pw = PiecewiseAffine(TriMesh(src, trilist, copy=False), target)
     inv = pw.pseudoinverse()
     ob.true("type", type(inv) is type(pw))
     ob.true("has_true_inverse", pw.has_true_inverse is True)
